@@ -48,11 +48,19 @@ inline bool& unprotected()
 //   prd <name> <value>     both words read (with a scheduling point in between: torn reads show up)
 //   pwr <name> <value>     both words written (scheduling point in between)
 // Unregistered instances (temporaries, arguments, results) are silent.
+struct Pay;
+// makes Pay "initializer_list-constructible from itself" (like std::vector<std::any>): for such a T, `T b{a}` is not a
+// copy but a one-element container.  A wrapper that brace-initialises a copy of the wrapped object changes its value.
+struct PayItem {
+    const Pay* src;
+    PayItem(const Pay& o): src(&o) {}  // NOLINT (implicit on purpose)
+};
 struct Pay {
     long a = 0;
     long b = 0;
     Pay() = default;
     explicit Pay(long v): a(v), b(v) {}
+    Pay(std::initializer_list<PayItem> l): a(7770 + long(l.size())), b(7770 + long(l.size())) {}  // NOLINT: visibly not a copy
     bool traced() const { return verif::tracing() && verif::is_registered(this); }
     long get() const
     {
